@@ -278,6 +278,9 @@ class Lemma:
                 # action is the store of its value there
                 engine.store(st2, cond, c.label(info.r_out), self.w, v, f'child {node!r} result into [{info.r_out}]')
         st2.trace = st.trace + (('child', info, ev),)
+        # (for the concrete replay of counter-models, hidv/harness/cexrun.py: what the child left in the registers)
+        ev.post_regs = {r: st2.regs[r] for r in ('r0', 'r1', 'r2')}
+        ev.post_store = None if (info.kind != 'expr' or info.r_out in st2.regs) else (c.label(info.r_out), self.w, v)
         def abnormal(kind):
             e2 = ChildEvent(info, None, pre, fresh_mem, lo, kind, c, tuple(st.extents))
             s3 = st2.copy(); s3.trace = st.trace + (('child', info, e2),)
@@ -402,14 +405,34 @@ class Lemma:
                 continue
             if o.verdict == smt.UNKNOWN:
                 self.add(clause, UNDECIDED, t0, props, {'message': f'{text}: {o.reason}', 'formula': text}); return False
-            bad = (text, o); break
+            bad = (text, o); bad_cond = cond; break
         if bad:
             text, o = bad
-            self.add(clause, FAILED, t0, props, {'formula': text, 'model': smt.model_to_json(o.model),
-                                                  'message': f'refuted: {text}'})
+            d = {'formula': text, 'model': smt.model_to_json(o.model), 'message': f'refuted: {text}'}
+            rep = self.model_replay(bad_cond, o.model)
+            if rep is not None:
+                d['replay'] = rep
+            self.add(clause, FAILED, t0, props, d)
             return False
         self.add(clause, DISCHARGED, t0, props, {'formula': f'{n} conditions, e.g. {items[0][1] if items else "-"}', 'count': n})
         return True
+
+    def model_replay(self, cond, model, leaf=None):
+        """concrete replay of a counter-model on the emitted text (hidv/harness/cexrun.py); None when not applicable"""
+        if getattr(self, 'no_model_replay', False) or not getattr(self, 'lines', None):
+            return None
+        leaves = getattr(self, 'last_leaves', None) or []
+        if leaf is None and cond is not None:
+            for l in leaves:
+                if l.cond is cond or (len(l.cond) == len(cond) and all(a is b or a.eq(b) for a, b in zip(l.cond, cond))):
+                    leaf = l; break
+        if leaf is None:
+            return None
+        try:
+            from . import cexrun
+            return cexrun.replay(self, leaf, model)
+        except Exception as e:          # the replay is an aid: never let it mask the failed obligation
+            return {'reproduced': None, 'how': f'no concrete replay: {type(e).__name__}: {e}'}
 
     def simulate(self, leaves, program, compare, props, clause='SIM'):
         """program(S) runs the reference semantics; compare(S, leaf, out) checks results on normal completion"""
@@ -461,9 +484,13 @@ class Lemma:
                 if first_err is not None:
                     raise first_err
         except SP.Mismatch as m:
-            self.add(clause, FAILED, t0, props, {'message': m.why, 'model': smt.model_to_json(m.info.get('model')),
-                                                  'formula': 'every leaf of the emitted code simulates the reference semantics',
-                                                  'code_value': str(m.info.get('code'))[:300], 'spec_value': str(m.info.get('spec'))[:300]})
+            d = {'message': m.why, 'model': smt.model_to_json(m.info.get('model')),
+                 'formula': 'every leaf of the emitted code simulates the reference semantics',
+                 'code_value': str(m.info.get('code'))[:300], 'spec_value': str(m.info.get('spec'))[:300]}
+            rep = self.model_replay(None, m.info.get('model'), leaf=cand)
+            if rep is not None:
+                d['replay'] = rep
+            self.add(clause, FAILED, t0, props, d)
             return False
         except (SP.Undecided, sem.EngineError) as u:
             self.add(clause, UNDECIDED, t0, props, {'message': repr(u)}); return False
